@@ -220,9 +220,15 @@ func DistMatrix(al align.Alignment, weights []float64, model DistModel, range1Mi
 	}
 	wg.Wait()
 
+	// Distances that could not be computed are replaced by twice the
+	// maximum distance, or left undefined if no distance is positive
+	subst := 2 * max
+	if max <= 0 {
+		subst = math.NaN()
+	}
 	for _, sp := range uncompute {
-		outmatrix[sp.i][sp.j] = 2 * max
-		outmatrix[sp.j][sp.i] = 2 * max
+		outmatrix[sp.i][sp.j] = subst
+		outmatrix[sp.j][sp.i] = subst
 	}
 
 	return
